@@ -49,6 +49,8 @@ fn contexts() -> Vec<&'static str> {
         "IF {e} THEN PRINT 1 ELSE IF 1 THEN PRINT 2 ELSE PRINT 3",
         "IF {e} THEN GOSUB 100 ELSE GOSUB 100",
         "IF {e} THEN FOR I = 1 TO 2 ELSE PRINT 2: NEXT I",
+        // a DEF as the THEN statement of an IF that has an ELSE line
+        "IF {e} THEN DEF FNW(X) = X * 2 ELSE 100\n11 IF {e} THEN PRINT FNW(2)",
         // nested IFs whose inner ELSE clause transfers control and is resumed before the outer ELSE
         "IF 1 THEN IF {e} THEN PRINT 1 ELSE GOSUB 100 ELSE PRINT 3",
         "IF {e} THEN IF 0 THEN PRINT 1 ELSE GOSUB 100 ELSE GOSUB 100",
@@ -86,7 +88,7 @@ fn contexts() -> Vec<&'static str> {
 }
 
 fn fixed_lines() -> Vec<&'static str> {
-    vec!["GOTO 100", "GOSUB 100", "GOTO 777", "GOSUB 777", "FOR I$ = 1 TO 2", "NEXT I$", "NEXT I", "READ X", "READ X$, X", "RETURN", "DIM C", "PRINT FNQ(1)", "X = FNA(1, 2)", "X = FNA()", "PRINT NOT NOT X", "PRINT - -3", "X = -+1", "PRINT NOT -1", "X = 2 * -+3", "PRINT X$ = X$ = \"A\"", "X = \"A\" = \"A\" = 1", "X = A(- -1)", "GOTO 100.5", "GOSUB 100.25", "IF 1 THEN 100.5", "IF 0 THEN 777 ELSE 100.75", "GOTO 100.0", "GOTO 99.9", "I$ = \"S\": FOR I$ = 1 TO 3", "Y = 1: READ Y$", "Y$ = \"\": READ Y"]
+    vec!["GOTO 100", "GOSUB 100", "GOTO 777", "GOSUB 777", "FOR I$ = 1 TO 2", "NEXT I$", "NEXT I", "READ X", "READ X$, X", "RETURN", "DIM C", "PRINT FNQ(1)", "X = FNA(1, 2)", "X = FNA()", "PRINT NOT NOT X", "PRINT - -3", "X = -+1", "PRINT NOT -1", "X = 2 * -+3", "PRINT X$ = X$ = \"A\"", "X = \"A\" = \"A\" = 1", "X = A(- -1)", "GOTO 100.5", "GOSUB 100.25", "IF 1 THEN 100.5", "IF 0 THEN 777 ELSE 100.75", "GOTO 100.0", "GOTO 99.9", "DIM P(5), Q(5)", "I$ = \"S\": FOR I$ = 1 TO 3", "Y = 1: READ Y$", "Y$ = \"\": READ Y"]
 }
 
 fn leaves() -> Vec<Expr> {
